@@ -296,7 +296,7 @@ PROPS = {
         "quick": {"shards": 8},
         "thorough": {"shards": 16},
         "rule": ("fault sequences on the real Dialer.Dial + the real dial() (its three OS-facing callees lookupInterface/checkInterface/dialNDP renamed to "
-                 "recording fakes in the staged copy) on virtual time: every distinct execution of <=3 (quick) / <=4 (thorough) decisions over dial "
+                 "recording fakes in the staged copy) on virtual time: every distinct execution of <=3 (quick) / <=5 (thorough) decisions over dial "
                  "outcomes {ok, link-not-ready, syscall, permission, other} and task outcomes {nil, link change, syscall, permission, retries "
                  "exhausted, other} x cancellation {none, during the run} x mode {Advertise, Monitor} x initial autoconf {on, off} x one State failure "
                  "{permission, not-exist, other} at each of the first 6 State calls; rapid-generated sequences up to 60 decisions with up to 12 "
